@@ -25,6 +25,8 @@ type mintFam struct {
 
 func init() { families["mint"] = func() Family { return &mintFam{} } }
 
+func (f *mintFam) Reseed(r *rand.Rand) { f.rng = r }
+
 func (f *mintFam) Setup(cfg M, rng *rand.Rand) { f.rng = rng }
 
 func (f *mintFam) newChain(p M) {
